@@ -132,12 +132,13 @@ def model_eval(ctx, results):
         # failure its run IS the run of Flow.v (Proofs/Flow2Inv.v frun_all2_embed)
         exprs.append('let c := %s in let es := %s in let g := frun_all2 c (finit2 c) es in let f := fs g in '
                      '(ftrace2 c (finit2 c) es, store_dump f, quiescent c f, stale_values c f, '
-                     'nonoverlap2 c (finit2 c) es, wd_units g, locally_stale c f, flow_ok_mv c, flow_ok c)' % (c, es))
+                     'nonoverlap2 c (finit2 c) es, wd_units g, locally_stale c f, flow_ok_mv c, flow_ok c, '
+                     'hist_ok2 c (finit2 c) es)' % (c, es))
     vals = ctx.coq_eval(['DV.Model.Sched', 'DV.Model.Flow', 'DV.Model.Flow2', 'DV.Proofs.FlowInv',
-                         'DV.Proofs.Flow3Inv'], exprs, z_scope=False, chunk=8)
+                         'DV.Proofs.Flow3Inv', 'DV.Proofs.Flow2Main'], exprs, z_scope=False, chunk=8)
     out = []
     for v in vals:
-        tr, dump, q, stale, nov, wdu, lst, okmv, ok1 = v
+        tr, dump, q, stale, nov, wdu, lst, okmv, ok1, hok = v
         obs = []
         for (que, nodes, cluster, nxt) in tr:
             obs.append({'que': que,
@@ -146,7 +147,7 @@ def model_eval(ctx, results):
         store = sorted(([r, t, vn, content_py(cn)] for r, t, vn, cn in dump), key=lambda e: e[:3])
         out.append({'obs': obs, 'store': store, 'quiescent': q, 'stale': sorted(list(x) for x in stale),
                     'nonoverlap': nov, 'wd': sorted(list(x) for x in wdu),
-                    'lstale': sorted(list(x) for x in lst), 'in_class_mv': okmv, 'in_class_single': ok1})
+                    'lstale': sorted(list(x) for x in lst), 'in_class_mv': okmv, 'in_class_single': ok1, 'hist_ok2': hok})
     return out
 
 
@@ -450,6 +451,9 @@ def study(ctx):
     ctx.note('flow_events', sum(len(r['events']) for r in res))
     ctx.note('flow_runs_through_real_store', sum(1 for r in res for e in r['events'] if e[0] == 'run'))
     ctx.note('flow_failed_runs_through_real_worker', sum(1 for r in res for e in r['events'] if e[0] == 'fail'))
+    # histories that satisfy every hypothesis of C02_endstate_failures_partial / C02_endstate_mv_partial
+    ctx.note('flow_histories_inside_theorem_hypotheses',
+             sum(1 for r, m in zip(res, model) if m['hist_ok2'] and m['in_class_mv'] and r['quiescent']))
     ctx.note('flow_histories_multivalue_engines', sum(1 for m in model if m['in_class_mv'] and not m['in_class_single']))
     ctx.note('flow_histories_with_failures', sum(1 for r in res if has_fail(r)))
     ctx.note('flow_units_withdrawn_at_end', sum(len(withdrawn(r)) for r in res if has_fail(r)))
